@@ -599,6 +599,7 @@ func runC04(c *Ctx) {
 	}
 	ix := c.Idx()
 	checkEffectiveProperty(c, "R04.1", fn, "properties/align", "PropertyType")
+	importPropertyStore(c, "R04.1")
 	// the resolved alignment of column i+1 is stored at columnAligns[i]
 	{
 		ok := false
